@@ -903,3 +903,152 @@ RECIPES += [
     ("C18", "neutral", [], LOC, _CLAMP_MAT, "    pvi[i.size <= pvi] = i.size - 1\n    pv2 = i[pvi]\n", "mat_intersect: clamp written as size <= index"),
     ("C18", "break", ["C18-R3"], LOC, _CLAMP_MAT, "    last = i.size - 1\n    pvi[pvi > last + 1] = last\n    pv2 = i[pvi]\n", "mat_intersect: clamp condition index > size (never true)"),
 ]
+
+# ---- pass 4 (fresh round N35 and own refactorings O1..O5): row labels selected directly, label tables by position, linear-algebra /
+# broadcasting spellings, generator reductions, boundary tests re-expressed, with / try-finally blocks, ufunc out= / where=
+_KEYS_DF = '''        uset_set = uset.index.get_level_values("id") * 10 + uset.index.get_level_values(
+            "dof"
+        )
+'''
+_PART = '''        if nasset != "p":
+            setpv = mksetpv(uset, "p", nasset)
+            uset = uset.loc[setpv]
+''' + _KEYS_DF
+_REQ_KEYS = "    _dof = dof[:, 0] * 10 + dof[:, 1]\n"
+_CHK = "    chk = uset_set[pv] != _dof\n    if chk.any():\n"
+_FILT = "            chk = ~chk\n            pv = pv[chk]\n            dof = dof[chk]\n"
+_IDS2 = "        rg = range(1, 7) if grids_only else range(7)\n" + _IDS
+_ASIS = "    elif dof[:, 1].max() <= 6:\n"
+_GUARD = "    if (edof[:, 1] > 6).any():\n"
+_SUBSET = "    if np.any(~pvmajor & pvminor):\n"
+_OP2_CLEAR = '''        if any(sset):
+            uset[sset] = uset[sset] & ~np.array(2, uset.dtype)
+        self.rdop2eot()
+        return uset
+'''
+RECIPES += [
+    # the table side of mkdofpv
+    ("C18", "neutral", [], N2P, _PART, '''        index = uset.index
+        if nasset != "p":
+            index = index[mksetpv(uset, "p", nasset)]
+        uset_set = index.get_level_values("id") * 10 + index.get_level_values("dof")
+''', "mkdofpv: the row labels are partitioned directly (uset.index[mask]) instead of uset.loc[mask].index"),
+    ("C18", "break", ["C18-R3"], N2P, _PART, '''        index = uset.index
+        if nasset != "p":
+            index = index[mksetpv(uset, nasset, "p")]
+        uset_set = index.get_level_values("id") * 10 + index.get_level_values("dof")
+''', "mkdofpv: row labels partitioned by mksetpv with major and minor exchanged"),
+    ("C18", "break", ["C18-R3"], N2P, _PART, '''        index = uset.index
+        uset_set = index.get_level_values("id") * 10 + index.get_level_values("dof")
+''', "mkdofpv: row labels never restricted to the requested set"),
+    ("C18", "break", ["C18-R3"], N2P, _PART, '''        full = uset.index
+        if nasset != "p":
+            uset = uset.loc[mksetpv(uset, "p", nasset)]
+        uset_set = uset.index.get_level_values("id") * 10 + full.get_level_values("dof")
+''', "mkdofpv: id level read from the partitioned labels, dof level from the full table"),
+    ("C18", "neutral", [], N2P, _PART, '''        if nasset != "p":
+            uset = uset.iloc[np.flatnonzero(mksetpv(uset, "p", nasset))]
+        labels = uset.index.to_frame(index=False)
+        uset_set = (labels["id"] * 10 + labels["dof"]).to_numpy()
+''', "mkdofpv: rows selected by position (iloc + flatnonzero), levels read as columns of index.to_frame()"),
+    ("C18", "neutral", [], N2P, _KEYS_DF, "        uset_set = uset.index.get_level_values(0) * 10 + uset.index.get_level_values(1)\n",
+     "mkdofpv: index levels by position (make_uset lays the labels out as (id, dof))"),
+    ("C18", "break", ["C18-R3"], N2P, _KEYS_DF, "        uset_set = uset.index.get_level_values(1) * 10 + uset.index.get_level_values(0)\n",
+     "mkdofpv: index levels by position, exchanged (dof*10 + id)"),
+    ("C18", "neutral", [], N2P, _KEYS_DF, "        labels = np.array(uset.index.tolist())\n        uset_set = labels[:, 0] * 10 + labels[:, 1]\n",
+     "mkdofpv: keys from the table of label tuples"),
+    ("C18", "neutral", [], N2P, _KEYS_DF, '''        uset_set = uset.index.get_level_values("id").to_numpy() * 10 + uset.index.get_level_values("dof").to_numpy()\n''',
+     "mkdofpv: levels converted with .to_numpy() before the arithmetic"),
+    # the requested side
+    ("C18", "neutral", [], N2P, _REQ_KEYS, "    _dof = dof @ np.array([10, 1])\n", "mkdofpv: requested keys as a matrix-vector product"),
+    ("C18", "neutral", [], N2P, _REQ_KEYS, "    _dof = dof.dot((10, 1))\n", "mkdofpv: requested keys as dof.dot((10, 1))"),
+    ("C18", "break", ["C18-R3"], N2P, _REQ_KEYS, "    _dof = dof @ np.array([100, 1])\n", "mkdofpv: requested keys id*100 + dof against table keys id*10 + dof"),
+    ("C18", "break", ["C18-R3"], N2P, _REQ_KEYS, "    _dof = dof @ np.array([1, 10])\n", "mkdofpv: weights exchanged in the matrix-vector product"),
+    ("C18", "neutral", [], N2P, _REQ_KEYS, "    _dof = dof[..., 0] * 10 + dof[..., 1]\n", "mkdofpv: columns taken with an Ellipsis index"),
+    ("C18", "neutral", [], N2P, "    dof = expanddof(dof, grids_only)\n    _dof", "    dof = expanddof(dof, grids_only=bool(grids_only))\n    _dof",
+     "mkdofpv: the flag handed on as bool(flag)"),
+    # the search and the re-check
+    ("C18", "neutral", [], N2P, _CLAMP_DOF, "    pv = i.take(pvi, mode=\"clip\")\n", "mkdofpv: clamp by take(mode='clip')"),
+    ("C18", "neutral", [], LOC, _CLAMP_MAT, "    pv2 = np.take(i, pvi, mode=\"wrap\")\n", "mat_intersect: index == size wrapped to 0 by take(mode='wrap'); the re-check decides"),
+    ("C18", "break", ["C18-R3"], N2P, _CLAMP_DOF, "    pv = i.take(pvi, mode=\"raise\")\n", "mkdofpv: take(mode='raise') does not clamp"),
+    ("C18", "neutral", [], N2P, _MKDOFPV_TAIL.split("    chk = ")[0], '''    i = uset_set.argsort()
+    keys = uset_set.to_numpy() if hasattr(uset_set, "to_numpy") else uset_set
+    pvi = np.searchsorted(keys, _dof, sorter=i)
+    pvi[pvi == i.size] -= 1
+    pv = i[pvi]
+
+''', "mkdofpv: the keys searched are .to_numpy() of the keys sorted"),
+    ("C18", "neutral", [], N2P, _CHK, "    chk = uset_set[pv] != _dof\n    if len(dof[chk]) > 0:\n", "mkdofpv: `some DOF missing` tested as len(dof[chk]) > 0"),
+    ("C18", "neutral", [], N2P, _CHK, "    chk = uset_set[pv] != _dof\n    if dof[chk].size:\n", "mkdofpv: `some DOF missing` tested as dof[chk].size"),
+    ("C18", "neutral", [], N2P, _CHK, "    chk = uset_set[pv] != _dof\n    if not np.array_equal(uset_set[pv], _dof):\n", "mkdofpv: `some DOF missing` tested with np.array_equal"),
+    ("C18", "neutral", [], N2P, _FILT, "            chk = ~chk\n            pv = pv[chk]\n            dof = dof[np.flatnonzero(chk)]\n",
+     "mkdofpv: positions filtered by the match mask, DOF list by its index vector (same rows, same order)"),
+    ("C18", "break", ["C18-R3"], N2P, _FILT, "            pv = pv[~chk]\n            dof = dof[np.flatnonzero(chk)]\n",
+     "mkdofpv: positions keep the matches, the DOF list keeps the mismatches"),
+    # mksetpv
+    ("C18", "neutral", [], N2P, _SUBSET, "    if not np.array_equal(pvminor & pvmajor, pvminor):\n", "mksetpv: containment as array_equal(minor & major, minor)"),
+    ("C18", "break", ["C18-R2"], N2P, _SUBSET, "    if not np.array_equal(pvminor & pvmajor, pvmajor):\n", "mksetpv: array_equal against major (refuses proper subsets, accepts supersets)"),
+    ("C18", "neutral", [], N2P, _SUBSET, "    if any(mn and not mj for mn, mj in zip(pvminor, pvmajor)):\n", "mksetpv: containment as a generator over zip(minor, major)"),
+    ("C18", "break", ["C18-R2"], N2P, _SUBSET, "    if any(mj and not mn for mn, mj in zip(pvminor, pvmajor)):\n", "mksetpv: generator test with the roles exchanged"),
+    ("C18", "neutral", [], N2P, _SUBSET, "    if (pvminor & ~pvmajor).max():\n", "mksetpv: containment as the maximum of a boolean vector"),
+    ("C18", "neutral", [], N2P, '    uset_set = uset["nasset"].values\n    pvmajor', '    uset_set = uset.nasset.to_numpy()\n    pvmajor', "mksetpv: column by attribute, .to_numpy()"),
+    # expanddof
+    ("C18", "neutral", [], N2P, _ASIS, "    elif dof[:, 1].max() < 7:\n", "expanddof: max() < 7"),
+    ("C18", "break", ["C18-R4"], N2P, _ASIS, "    elif dof[:, 1].max() < 8:\n", "expanddof: max() < 8 lets a 7 through unexpanded"),
+    ("C18", "neutral", [], N2P, _ASIS, "    elif all(comp <= 6 for comp in dof[:, 1]):\n", "expanddof: all() over a generator"),
+    ("C18", "neutral", [], N2P, _ASIS, "    elif dof[..., 1].max() <= 6:\n", "expanddof: component column by Ellipsis"),
+    ("C18", "neutral", [], N2P, _GUARD, "    if edof[:, 1].max() >= 7:\n", "expanddof: guard as max() >= 7"),
+    ("C18", "break", ["C18-R4"], N2P, _GUARD, "    if edof[:, 1].max() >= 8:\n", "expanddof: guard as max() >= 8 (a 7 is returned)"),
+    ("C18", "neutral", [], N2P, _GUARD, "    if any(comp > 6 for _, comp in edof):\n", "expanddof: guard as any() over the rows"),
+    ("C18", "break", ["C18-R4"], N2P, _GUARD, "    if any(comp > 7 for _, comp in edof):\n", "expanddof: generator guard with the wrong bound"),
+    ("C18", "neutral", [], N2P, _IDS2, '''        rg = np.arange(1 if grids_only else 0, 7)
+        pairs = np.empty((dof.size, rg.size, 2), dtype=np.int64)
+        pairs[..., 0] = dof.reshape(-1, 1)
+        pairs[..., 1] = rg
+        return pairs.reshape(-1, 2)
+''', "expanddof: id x component product by broadcasting into a (ids, components, 2) buffer"),
+    ("C18", "break", ["C18-R4"], N2P, _IDS2, '''        rg = np.arange(1 if grids_only else 0, 7)
+        pairs = np.empty((rg.size, dof.size, 2), dtype=np.int64)
+        pairs[..., 0] = dof.ravel()
+        pairs[..., 1] = rg[:, None]
+        return pairs.reshape(-1, 2)
+''', "expanddof: broadcast buffer with the component axis first (component-major rows)"),
+    ("C18", "neutral", [], N2P, _IDS2, '''        rg = np.arange(1 if grids_only else 0, 7)
+        ids, comps = np.meshgrid(dof.ravel(), rg, indexing="ij")
+        return np.column_stack((ids.ravel(), comps.ravel()))
+''', "expanddof: np.meshgrid(indexing='ij') raveled into two columns"),
+    ("C18", "break", ["C18-R4"], N2P, _IDS2, '''        rg = np.arange(1 if grids_only else 0, 7)
+        ids, comps = np.meshgrid(dof.ravel(), rg)
+        return np.column_stack((ids.ravel(), comps.ravel()))
+''', "expanddof: np.meshgrid with the default 'xy' indexing (component-major rows)"),
+    # index2slice
+    ("C18", "neutral", [], LOC, _EVEN, "    if d0 and np.all(d == d0) and pv[0] >= 0 and pv[-1] >= 0:\n", "index2slice: step tested by its truth value"),
+    ("C18", "neutral", [], LOC, "    d = np.diff(pv)\n", "    d = pv[1:] - pv[:-1]\n", "index2slice: differences written out"),
+    ("C18", "break", ["C18-R5"], LOC, _EVEN, "    if d0 and np.any(d == d0) and pv[0] >= 0 and pv[-1] >= 0:\n", "index2slice: any() instead of all() differences equal"),
+    # _rdop2uset
+    ("C18", "neutral", [], OP2, _OP2_CLEAR, '''        try:
+            if any(sset):
+                uset[sset] = uset[sset] & ~np.array(2, uset.dtype)
+        finally:
+            self.rdop2eot()
+        return uset
+''', "_rdop2uset: the clearing inside try / finally"),
+    ("C18", "neutral", [], OP2, "            uset[sset] = uset[sset] & ~np.array(2, uset.dtype)\n", "            np.bitwise_and(uset, ~np.array(2, uset.dtype), out=uset, where=sset)\n",
+     "_rdop2uset: the clearing as a ufunc call with out= and where="),
+    ("C18", "break", ["C18-R1b"], OP2, "            uset[sset] = uset[sset] & ~np.array(2, uset.dtype)\n", "            np.bitwise_and(uset, ~np.array(4, uset.dtype), out=uset, where=sset)\n",
+     "_rdop2uset: ufunc form clearing the wrong bit"),
+    # blocks
+    ("C18", "neutral", [], N2P, _MKDOFPV_TAIL.split("    chk = ")[0], '''    with np.errstate(all="raise"):
+        i: np.ndarray = np.argsort(uset_set)
+        pvi: np.ndarray = np.searchsorted(uset_set, _dof, sorter=i)
+        pvi[pvi == i.size] -= 1
+        pv = i[pvi]
+
+''', "mkdofpv: the search inside a `with` block, annotated assignments"),
+    ("C18", "break", ["C18-R3"], N2P, _MKDOFPV_TAIL.split("    chk = ")[0], '''    with np.errstate(all="raise"):
+        i: np.ndarray = np.argsort(uset_set)
+        pvi: np.ndarray = np.searchsorted(uset_set, _dof, sorter=i)
+        pv = i[pvi]
+
+''', "mkdofpv: inside a `with` block, the clamp dropped"),
+]
